@@ -288,7 +288,21 @@ def _check(chk, cfg, real, reply) -> None:
         return
     _, _, init_expected = _model_world(cfg)
     if (real["init"][0], real["init"][1]) != (sorted(init_expected[0]), init_expected[1]):
-        raise common.Infra(f"C14: initial state of {cfg} is {real['init']}, the harness intended {init_expected}")
+        # the set-up itself runs fakesnow (patch + connect() + CREATE DATABASE / SCHEMA / TABLE under the instance options): what those
+        # statements leave behind is behaviour of the code under test, so a wrong state is a violation with the set-up as the failing case
+        stmts = []
+        for cat, schemas in PRIORS[prior]:
+            stmts.append(f"create database {cat}")
+            stmts.append(f"use database {cat}")
+            for sc in schemas:
+                stmts += [f"create schema {cat}.{sc}"] + [d.format(q=f"{cat}.{sc}") for d in T_DDL]
+        where = ("an earlier patch(db_path=<dir>) session (then a new session on the same <dir>)" if storage == "existing" else
+                 f"patch(create_database_on_connect={cdb}, create_schema_on_connect={csc}, db_path={'<dir>' if storage != 'memory' else None})")
+        chk.violation(f"set-up of the prior state: in {where}, a connect() session ran {stmts}; afterwards the catalogs (name, file-backed by "
+                      f"<dir>/<NAME>.db, schemas with content) / db files seen from another connection are ({real['init'][0]}, {real['init'][1]}), "
+                      f"required ({sorted(init_expected[0])}, {init_expected[1]})" + ("; " + "; ".join(real["init"][2]) if real["init"][2] else ""),
+                      {"cfg": list(cfg), "setup": stmts}, broken="C14 prior state (storage mode of databases created through a connect() session; correspondence)")
+        return
     spec_outs, spec_world = _dec_run(reply["spec"])
     impl_outs, impl_world = _dec_run(reply["impl"])
     ship_outs, ship_world = _dec_run(reply["shipped"])
